@@ -33,6 +33,7 @@ def private_dataset():
 def run_taint(repo):
     T = Taint(repo, FILES)
     outs = {}
+    T.receivers = {}
     for rel, q, cls in ENTRIES:
         fi = repo.func(rel, q)
         mod = T.mods[rel]
@@ -42,6 +43,7 @@ def run_taint(repo):
                 a = AV(kind='obj', cls=(rel, cls))
                 a.env = {}
                 args.append(a)
+                T.receivers[q] = a
             elif p == 'data':
                 args.append(private_dataset())
             elif p == 'W':
@@ -88,6 +90,18 @@ def run(ctx):
         ctx.ob('public-sink', fi, fi.node, not v.anyt(),
                'the value returned by %s %s' % (q, 'is public' if not v.anyt() else 'derives from %s without passing through a DP primitive' % (v.reason() or 'private data')),
                construct='return value of ' + q)
+    # ---- state left on the mechanism object: as observable as the return value -------------------------------------------------------------------
+    n_state = 0
+    for q, me in sorted(T.receivers.items()):
+        rel = [r for r, qq, c in ENTRIES if qq == q][0]
+        fi = repo.func(rel, q)
+        for attr, v in sorted((me.env or {}).items()):
+            n_state += 1
+            if v.anyt():
+                ctx.ob('public-sink', fi, fi.node, False,
+                       'self.%s, left on the mechanism object after %s, derives from %s without passing through a DP primitive (whoever holds the object reads it)'
+                       % (attr, q, v.reason() or 'private data'), construct='state self.%s after %s' % (attr, q))
+    ctx.counters['attributes left on mechanism objects'] = n_state
     # ---- releases ------------------------------------------------------------------------------------------
     rels = list(T.releases.values())
     for r in sorted(rels, key=lambda r: (r.mod.rel, r.node.lineno)):
